@@ -23,6 +23,15 @@
      CtxFix  TRUE = repair candidate: an ended context takes precedence over ErrReduceNoOutput
      Hook    TRUE = gate points verifhook.At("mr.main.select") (the caller just before its select) and
              verifhook.At("mr.write.guarded") (the reducer's Write between guard and send) are environment steps
+     W       the int passed to WithWorkers - the whole domain of the option (0 and negative counts included); what
+             the property makes of it is MR!EffWorkers, what the code makes of it is PoolCap:
+     Clamp   "min1" = the code as it is (anything below minWorkers = 1 becomes 1); "neg" = variant that clamps
+             negative counts only (documented counterexample: WithWorkers(0) = a pool and a collector of capacity 0)
+     ErrSet  error identities (MR.tla "error domain") a user function may pass to cancel besides the standard ones
+             (mapper of item i: i; reducer: 0 = nil): typed-nil errors, wrappers, context errors
+     AEIgnore "nil" = errorx.AtomicError.Set as it is (ignores a nil error only; cancel substitutes ErrCancelWithNil
+             for nil before calling it); "typednil" = variant whose Set also ignores typed-nil errors (documented
+             counterexample: cancel(typed nil) cancels the work but records no error)
      Steer   FALSE = model checking (all interleavings); TRUE = schedule generation for the Go driver:
              user-function operations and the context's end happen only when the library cannot move,
              `hist` records them                                                                  *)
@@ -48,6 +57,20 @@
        MRImplMC5   1 item, 2 cancels, 2 panics, context, early reducer         2 417 950
        (2 items 2 workers, cancel+panic+context+early reducer: 19 639 957, 10 min - not part of a tier)
        MRImplLive / MRImplLiveFE  FairSpec: CallReturns, Quiesces (1 item, cancel+panic+context)  235 856 / 7 728
+     worker option / error domain (repaired design unless stated)
+       MRImplBugW0   Clamp="neg", WithWorkers(0), 1 item: NoStuck violated after 62 states (dispatcher parked in its select
+                     on a pool of capacity 0, generator parked on source, reducer on the collector, caller in its select)
+       MRImplBugTNil AEIgnore="typednil", 1 item, one cancel with a typed-nil error: GuardsHold violated (~1 900): the
+                     call returns ErrReduceNoOutput although cancel(typed nil) had returned
+       MRImplMCw0    WithWorkers(0), 2 items, no fault                              3 778
+       MRImplMCwneg  WithWorkers(-3), 2 items, cancel+panic                       144 959
+       MRImplMCfeW0  ForEach WithWorkers(0), 2 items, 2 panics, context end         5 320
+       MRImplMCerrQ  1 item, one cancel, ErrSetAll                                 25 238
+       MRImplMCerr   1 item, two cancels, ErrSetAll                               175 750
+       MRImplMCerrC  1 item, one cancel, ErrSetAll, context end                   201 863
+       (1 item, two cancels, ErrSetAll, context end: 1 245 687, 45 s - not part of a tier)
+       GenEQ (2 items, one cancel, ErrSetAll) 17 551 / 486, GenE (1 item, two cancels, context) 67 755 / 3 328,
+       GenW (3 items, WithWorkers(0)) 10 985 / 313, GenFEw (ForEach, WithWorkers(0)) 585 / 36
      steering mode (one schedule per distinct final state, with the context alive or ended): GenQ 72 923 states /
        2 437 schedules, GenD 178 136, GenA 437 760, GenB (3 items) 248 268, GenC (fan-out 2) 40 590, GenFE 2 454 / 90,
        GenStuck (code as it is, schedules ending stuck) 313 995 / 3 658,
@@ -55,7 +78,8 @@
        GenHF (gate points, repaired design) 65 584 / 1 140.                                                          *)
 EXTENDS MR, Json
 
-CONSTANTS NI, W, Fanout, Api, MaxCancel, MaxPanic, CtxMay, RedEarly, PBuf, Prio, CtxFix, Hook, Steer, Emit
+CONSTANTS NI, W, Fanout, Api, MaxCancel, MaxPanic, CtxMay, RedEarly, PBuf, Prio, CtxFix, Hook, Steer, Emit,
+          Clamp, ErrSet, AEIgnore
 
 VARIABLES
   pc,     \* goroutine |-> label
@@ -77,6 +101,15 @@ MAIN == NI + 4
 Procs == 1..(NI + 4)
 NoErr == -9
 
+\* capacity of the mapper pool and of the collector: options.workers after WithWorkers(W)
+PoolCap == IF W < (IF Clamp = "neg" THEN 0 ELSE 1) THEN 1 ELSE W
+\* errors AtomicError.Set drops
+AEIgnored == IF AEIgnore = "typednil" THEN {e \in ErrSet : IsTypedNilErr(e)} ELSE {}
+
+\* values for the cfg files (a cfg cannot write a negative number)
+ErrSetAll == {7001, 7100, CtxErr}     \* a typed nil, a wrapper, context.DeadlineExceeded passed by user code
+WNeg == -3
+
 Val(i, k) == 10 * i + k          \* the k-th value written by the mapper of item i
 RedOut == 900                    \* the reducer's output
 
@@ -90,7 +123,7 @@ Goto(s, l) == pc' = [pc EXCEPT ![s] = l]
 Goto2(s, l, t, m) == pc' = [pc EXCEPT ![s] = l, ![t] = m]
 
 IInit ==
-  /\ ps = [PNew(IF Api = "foreach" THEN "foreach" ELSE "mr", W) EXCEPT !.cstate = "running"]
+  /\ ps = [PNew(IF Api = "foreach" THEN "foreach" ELSE "mr", EffWorkers(TRUE, W, 16)) EXCEPT !.cstate = "running"]
   /\ pc = [s \in Procs |-> CASE s \in Mappers -> "idle"
                              [] s = GEN -> "g_u"
                              [] s = DISP -> "d_loop"
@@ -149,7 +182,7 @@ FClose2(s) ==
 CEnter(s) ==
   /\ pc[s] = "c_enter"
   /\ \/ /\ sh.onceSt = 0
-        /\ sh' = [sh EXCEPT !.onceSt = 1, !.retErr = loc[s].cerr]
+        /\ sh' = [sh EXCEPT !.onceSt = 1, !.retErr = IF loc[s].cerr \in AEIgnored THEN @ ELSE loc[s].cerr]
         /\ Goto(s, "c_drain")
      \/ /\ sh.onceSt = 2
         /\ Goto(s, loc[s].cret) /\ UNCHANGED sh
@@ -214,7 +247,7 @@ DSel ==
   /\ pc[DISP] = "d_sel"
   /\ \/ sh.ctxDone /\ Goto(DISP, "d_wait") /\ UNCHANGED sh
      \/ ch.doneClosed /\ Goto(DISP, "d_wait") /\ UNCHANGED sh
-     \/ sh.pool < W /\ sh' = [sh EXCEPT !.pool = @ + 1] /\ Goto(DISP, "d_recv")
+     \/ sh.pool < PoolCap /\ sh' = [sh EXCEPT !.pool = @ + 1] /\ Goto(DISP, "d_recv")
   /\ Quiet /\ NoLog /\ UNCHANGED <<loc, ch, cnt>>
 DRecvClosed ==
   /\ pc[DISP] = "d_recv" /\ ch.srcClosed
@@ -251,9 +284,11 @@ MWriteU(i) ==
 MCancelU(i) ==
   /\ pc[i] = "m_u" /\ Api # "foreach" /\ cnt.cancel < MaxCancel
   /\ cnt' = [cnt EXCEPT !.cancel = @ + 1]
-  /\ Obs(CancelStartOK(i), "cancelStart", CancelStartEff(i))
-  /\ loc' = [loc EXCEPT ![i].cerr = i, ![i].cret = "m_cret"]
-  /\ Goto(i, "c_enter") /\ Log([op |-> "map", i |-> i, a |-> "cancel"])
+  /\ \E e \in {i} \cup ErrSet :
+       /\ Obs(CancelStartOK(e), "cancelStart", CancelStartEff(e))
+       /\ loc' = [loc EXCEPT ![i].cerr = e, ![i].cret = "m_cret"]
+       /\ Log([op |-> "map", i |-> i, a |-> "cancel", e |-> e])
+  /\ Goto(i, "c_enter")
   /\ UNCHANGED <<ch, sh>>
 MCRet(i) ==
   /\ pc[i] = "m_cret"
@@ -290,7 +325,7 @@ WGuard(i) ==
   /\ Goto(i, IF sh.ctxDone \/ ch.doneClosed THEN "w_ret" ELSE "w_send")
   /\ Quiet /\ NoLog /\ UNCHANGED <<loc, ch, sh, cnt>>
 WSend(i) ==
-  /\ pc[i] = "w_send" /\ Len(ch.coll) < W
+  /\ pc[i] = "w_send" /\ Len(ch.coll) < PoolCap
   /\ ch' = [ch EXCEPT !.coll = Append(@, loc[i].cur)]
   /\ Goto(i, "w_ret")
   /\ Quiet /\ NoLog /\ UNCHANGED <<loc, sh, cnt>>
@@ -355,9 +390,11 @@ RORet ==
 RCancelU ==
   /\ pc[RED] = "r_u" /\ cnt.cancel < MaxCancel
   /\ cnt' = [cnt EXCEPT !.cancel = @ + 1]
-  /\ Obs(CancelStartOK(0), "cancelStart", CancelStartEff(0))
-  /\ loc' = [loc EXCEPT ![RED].cerr = 0, ![RED].cret = "r_cret"]
-  /\ Goto(RED, "c_enter") /\ Log([op |-> "red", a |-> "cancel"])
+  /\ \E e \in {0} \cup ErrSet :
+       /\ Obs(CancelStartOK(e), "cancelStart", CancelStartEff(e))
+       /\ loc' = [loc EXCEPT ![RED].cerr = e, ![RED].cret = "r_cret"]
+       /\ Log([op |-> "red", a |-> "cancel", e |-> e])
+  /\ Goto(RED, "c_enter")
   /\ UNCHANGED <<ch, sh>>
 RCRet ==
   /\ pc[RED] = "r_cret"
@@ -538,7 +575,7 @@ NoStuck == (~ENABLED Proto /\ ~ENABLED Env) => AllDone
 \* ExactlyOnce at quiescence
 EndHolds == AllDone => EndOK(TRUE, 0)
 
-Counters == sh.wg >= 0 /\ sh.pool >= 0 /\ sh.pool <= W /\ Len(ch.coll) <= W /\ Len(ch.pbuf) <= 1
+Counters == sh.wg >= 0 /\ sh.pool >= 0 /\ sh.pool <= PoolCap /\ Len(ch.coll) <= PoolCap /\ Len(ch.pbuf) <= 1
 \* the collector is closed only after every spawned mapper has gone
 CollectorClose == ch.collClosed => \A i \in Mappers : pc[i] \in {"idle", "done"}
 \* the reducer goroutine is the only sender on output, mappers the only senders on the collector
